@@ -61,7 +61,8 @@ class MessageContent(Writeable):
         if ct_hdr is None:
             return False
         else:
-            return ct_hdr.content_type == 'message/rfc822'
+            return ct_hdr.content_type == 'message/rfc822' \
+                and self.body.has_nested
 
     @property
     def json(self) -> Mapping[str, Any]:
